@@ -14,8 +14,12 @@ def cand_family(name):
              ((0, 1), (2, 3)), ((1,), (2,)), ((3,), (0, 1, 2)), ((1, 2), (0,)), ((3,), (2,))]
         return nodes, c
     if name == "n4q":
-        nodes, c = cand_family("n4")
-        return nodes, c[:9]
+        # 10 candidates: reverse pairs, nested / overlapping shapes, co-sources that first appear together followed by a
+        # hyperedge out of one of them and one into the other
+        nodes = [0, 1, 2, 3]
+        c = [((0,), (1,)), ((1,), (0,)), ((0, 1), (2,)), ((2,), (0, 1)), ((0,), (3,)), ((3,), (1,)), ((2, 3), (0, 1)),
+             ((2,), (1,)), ((0,), (2, 3)), ((1,), (2,))]
+        return nodes, c
     if name == "n5":
         nodes = [0, 1, 2, 3, 4]
         c = [((0,), (1,)), ((1,), (0,)), ((0, 1), (2, 3, 4)), ((2, 3, 4), (0, 1)), ((2,), (0,)), ((4,), (0, 1, 2, 3)),
